@@ -6,7 +6,7 @@ for l in open('/verif/properties.jsonl'):
     p = json.loads(l)
     if p['id'] == pid:
         break
-rust = pid in ('C01', 'C05', 'C06', 'C11')
+rust = pid in ('C01', 'C02', 'C05', 'C06', 'C11')
 print(f"""You are testing how robust a property of the open-source project TheBlueLizard/pi2 is against realistic regressions.
 pi2 is a Python proof-generation toolkit (generation/src/proof_generation) for a matching-logic proof checker written in Rust (rust/src/lib.rs); docs are in docs/.
 
